@@ -159,7 +159,13 @@ func consumerSender(ctx context.Context, wg *sync.WaitGroup, urlBuffer <-chan *s
 
 			if discard {
 				logger.Debug("parsing failed, sending the item to finisher", "url", URL.Value)
-				globalLQ.finishCh <- newItem
+				// Stay stoppable: the finish channel's receiver leaves on the same context
+				select {
+				case <-ctx.Done():
+					logger.Debug("closed while sending to finisher")
+					return
+				case globalLQ.finishCh <- newItem:
+				}
 				break
 			}
 
